@@ -203,7 +203,10 @@ fn run_sequence_after(departed: &[(Vec<String>, bool)], who: Who, lines: &[(Stri
     };
     'seq: for line in lines {
         n_lines += 1;
-        let res = std::panic::catch_unwind(std::panic::AssertUnwindSafe(|| s.call(&dbs, &line.0)));
+        let res = {
+            let _watch = hang::guard("command-handler", &short_line(&line.0));
+            std::panic::catch_unwind(std::panic::AssertUnwindSafe(|| s.call(&dbs, &line.0)))
+        };
         match &res {
             Ok(r) => trace.push(json!({"line": short_line(&line.0), "reply": short_line(&r.resp)})),
             Err(e) => {
@@ -326,6 +329,14 @@ pub fn targeted() -> Vec<(Who, Vec<String>)> {
         t.push((who, vec!["join 127.0.0.1:1".into(), "join 127.0.0.1:1".into(), "leave 127.0.0.1:1".into(), "replicate-join 127.0.0.1:1".into(), "replicate-join 127.0.0.1:1".into()]));
         t.push((who, vec!["set-primary 127.0.0.1:2".into(), "set-primary 127.0.0.1:2".into(), "set-primary 127.0.0.1:3".into(), "election win".into(), "set-primary 127.0.0.1:2".into()]));
         t.push((who, vec!["create-db x/y t".into(), "snapshot false x/y".into(), "use-db $admin pwd".into(), "snapshot true".into(), "snapshot false db|adb|$admin".into()]));
+        // catch-up requests of a known member against a non-empty operation log: since before, inside, after every record
+        for since in ["0", "1", "9223372036854775807", "18446744073709551615"] {
+            t.push((who, vec!["replicate-join 127.0.0.1:1".into(), "set k v".into(), "set k2 w".into(), "increment n 2".into(), format!("replicate-since 127.0.0.1:1 {}", since), "cluster-state".into(), "set k x".into()]));
+        }
+        // the in-conflict marker (-2) presented by a client as a version
+        t.push((who, vec!["use-db adb tok".into(), "arbiter".into(), "set-safe k -2 v".into(), "set-safe k -2 v".into(), "set k w".into(), "get-safe k".into()]));
+        t.push((who, vec!["use-db adb tok".into(), "arbiter".into(), "set-safe $connections -2 v".into(), "set-safe $connections -2 v".into(), "set $connections w".into(), "use-db db tok".into(), "use-db adb tok".into()]));
+        t.push((who, vec!["set-safe k -2 v".into(), "set-safe k -2 v".into(), "set k w".into(), "set-safe k -5 v".into(), "set-safe nk -1 v".into(), "set-safe nk2 -2147483648 v".into(), "increment nk2".into(), "get-safe nk2".into()]));
         // a database whose name carries a separator of the internal message formats, then every command that names it
         // names longer than a file name may be (the name is part of the data file names)
         for long in ["n".repeat(241), "n".repeat(256), "é".repeat(128), "n".repeat(5000)] {
